@@ -380,14 +380,20 @@ type c20 struct{}
 func init() { register(c20{}) }
 
 var c20Methods = []string{"syn", "sack", "prefer_sack", ""}
-var c20Caps = []string{"ok-ts", "ok", "noPermitted", "plainAck", "closed", "noSynAck"}
+var c20Caps = []string{"ok-ts", "ok", "noPermitted", "plainAck", "closed", "noSynAck", "unreach"}
+
+// unreachTarget is an address for which the worker's private network namespace holds the policy
+// rule "to 198.18.0.9 ipproto tcp unreachable": a TCP connect fails at once with ENETUNREACH (a
+// "cannot connect" that is not a refused connection) while the UDP connect used for local-address
+// discovery still works.
+const unreachTarget = "198.18.0.9"
 var c20Faults = []string{"none", "filter1", "filter2", "write1", "write2", "read1", "read3", "new"}
 
 func (c20) ID() string     { return "C20" }
 func (c20) Level() string  { return "fault_enumeration" }
 func (c20) QuickRuns() int { return len(c20Methods) * len(c20Caps) * len(c20Faults) * 4 * 30 }
 func (c20) Rule() string {
-	return "finite matrix, enumerated by run index: TCP method {syn, sack, prefer_sack, \"\"} x target capability {listening with SACK-permitted +/- timestamps, listening without SACK-permitted, ACKs without SACK blocks, port closed (real ECONNREFUSED), handshake never captured} x injected non-capability failure {none, 1st/2nd filter install, 1st/2nd send, 1st/3rd read, handle construction} x end-to-end probes 0..3; topology, timing and the choice tape are seeded per repetition; non-trivial = a TCP endpoint was created; distinct = distinct matrix cells x topology shapes"
+	return "finite matrix, enumerated by run index: TCP method {syn, sack, prefer_sack, \"\"} x target capability {listening with SACK-permitted +/- timestamps, listening without SACK-permitted, ACKs without SACK blocks, port closed (real ECONNREFUSED), TCP connect failing with ENETUNREACH (policy-routing rule in the worker's network namespace), handshake never captured} x injected non-capability failure {none, 1st/2nd filter install, 1st/2nd send, 1st/3rd read, handle construction} x end-to-end probes 0..3; topology, timing and the choice tape are seeded per repetition; non-trivial = a TCP endpoint was created; distinct = distinct matrix cells x topology shapes"
 }
 func (c20) Assumptions() []string {
 	return []string{"the SACK target is a real listening socket on loopback (the kernel completes the handshake); its SYN-ACK as seen by the capture handle is synthesised by the simulator with the scripted options"}
@@ -414,6 +420,9 @@ func (c20) Gen(rng *rand.Rand, tier string, i int) *sim.Scenario {
 		lis.Closed = true
 	case "noSynAck":
 		lis.NoSynAck = true
+	}
+	if capb == "unreach" {
+		c.Target, c.Listener, c.Port = unreachTarget, 0, 33434
 	}
 	sc := &sim.Scenario{Property: "C20", Calls: []sim.Call{c}, Listeners: []sim.Listener{lis}, Note: fmt.Sprintf("method=%q cap=%s fault=%s e2e=%d", method, capb, fault, e2e)}
 	dest := between(rng, 1, c.MaxTTL)
@@ -445,6 +454,9 @@ func (c20) Gen(rng *rand.Rand, tier string, i int) *sim.Scenario {
 	fi := 0
 	for q := 1; q <= c.Queries; q++ {
 		mk(fi, fmt.Sprintf("run#%d", q), Variant{Entry: "sack", Loosen: true}, 1, capb == "plainAck")
+		if capb == "unreach" {
+			// the SACK endpoint never gets to send; give its successor flows the right target
+		}
 		fi++
 		mk(fi, fmt.Sprintf("run#%d.2", q), Variant{Entry: "tcp"}, 1, false)
 		fi++
@@ -576,7 +588,7 @@ func (c20) Check(out *sim.Outcome, ri *RunInfo) []Violation {
 			return vs
 		}
 	}
-	unsupported := capb == "closed" || capb == "noPermitted" || capb == "plainAck"
+	unsupported := capb == "closed" || capb == "noPermitted" || capb == "plainAck" || capb == "unreach"
 	switch method {
 	case "syn", "":
 		if accepted > 0 || ackProbes["run"] > 0 {
